@@ -1,6 +1,9 @@
 #!/venv/bin/python
 """Confirm a sub-agent's seeded defect in a scratch worktree and file it under /verif/seeded/<id>/.
 usage: confirm_seed.py <dir with patch.diff demo.py notes.md> <id> <property>"""
+import os as _os, sys as _sys
+if _sys.version_info[:2] != (3, 12) and _os.path.exists("/venv/bin/python"):
+    _os.execv("/venv/bin/python", ["/venv/bin/python"] + _sys.argv)      # same interpreter as ./check (ast.unparse differs between versions)
 import json, os, shutil, subprocess, sys
 src, sid, prop = sys.argv[1], sys.argv[2], sys.argv[3]
 WT = "/tmp/wt_confirm"
